@@ -1,6 +1,7 @@
 package main
 
 import (
+	"hash/fnv"
 	"fmt"
 	"go/constant"
 	"go/token"
@@ -21,6 +22,9 @@ type Term struct {
 	F   []string
 	T   types.Type
 	str string
+	// Fn: for "func" and "closure" terms, the function denoted (closure: A = bound values,
+	// in the order of Fn.FreeVars)
+	Fn *ssa.Function
 }
 
 // commOrder: canonical operand order of a commutative numeric operation (constants last).
@@ -61,6 +65,8 @@ func (t *Term) String() string {
 		s = "&" + t.A[0].String()
 	case "call":
 		s = t.S + "(" + joinTerms(t.A) + ")"
+	case "dyncall":
+		s = "dyn:" + t.A[0].String() + "(" + joinTerms(t.A[1:]) + ")"
 	case "invoke":
 		s = t.A[0].String() + "." + t.S + "(" + joinTerms(t.A[1:]) + ")"
 	case "extract":
@@ -152,6 +158,21 @@ func (t *Term) hasUnknown() bool {
 	}
 	for _, a := range t.A {
 		if a.hasUnknown() {
+			return true
+		}
+	}
+	return false
+}
+
+func (t *Term) hasFreeVar() bool {
+	if t == nil {
+		return false
+	}
+	if t.Op == "freevar" {
+		return true
+	}
+	for _, a := range t.A {
+		if a.hasFreeVar() {
 			return true
 		}
 	}
@@ -364,7 +385,7 @@ func (x *TX) of(v ssa.Value, at ssa.Instruction) *Term {
 	case *ssa.Global:
 		return mk("addr", "", x.globalTerm(v))
 	case *ssa.Function:
-		return mk("func", "func:"+funcName(v))
+		return &Term{Op: "func", S: "func:" + funcName(v), Fn: v}
 	case *ssa.Builtin:
 		return mk("builtin", v.Name())
 	case *ssa.Alloc:
@@ -461,6 +482,13 @@ func (x *TX) of(v ssa.Value, at ssa.Instruction) *Term {
 	case *ssa.MakeSlice:
 		return x.bufTerm(v, at)
 	case *ssa.MakeMap:
+		if x.p.newHelper(x.fn) {
+			// a new helper's maps are distinct from its callers' (and, for a generic helper,
+			// from those of its other instances)
+			h := fnv.New32a()
+			h.Write([]byte(funcName(x.fn)))
+			return mk("map", fmt.Sprintf("map#%d^%08x", x.mapIDs[v], h.Sum32()))
+		}
 		return mk("map", fmt.Sprintf("map#%d", x.mapIDs[v]))
 	case *ssa.MakeInterface:
 		return x.Of(v.X, at)
@@ -473,7 +501,11 @@ func (x *TX) of(v ssa.Value, at ssa.Instruction) *Term {
 	case *ssa.TypeAssert:
 		return mk("assert", typeStr(v.AssertedType), x.Of(v.X, v))
 	case *ssa.MakeClosure:
-		return mk("closure", funcName(v.Fn.(*ssa.Function)))
+		t := &Term{Op: "closure", S: funcName(v.Fn.(*ssa.Function)), Fn: v.Fn.(*ssa.Function)}
+		for _, b := range v.Bindings {
+			t.A = append(t.A, x.Of(b, v))
+		}
+		return t
 	case *ssa.Range:
 		return mk("range", "", x.Of(v.X, v))
 	case *ssa.Next:
@@ -1016,7 +1048,64 @@ func phiOf(alts []*Term) *Term {
 	if len(out) == 1 {
 		return out[0]
 	}
+	// L = phi(f(phi(@|nil)) | nil) and L = phi(f(@) | nil) are the same recurrence: an inner
+	// "the cycle itself, or one of the cycle's other alternatives" is just the cycle
+	altSet := map[string]bool{}
+	for _, a := range out {
+		altSet[a.String()] = true
+	}
+	changed := false
+	for i, a := range out {
+		if na := collapseCycleRefs(a, altSet); na != a {
+			out[i], changed = na, true
+		}
+	}
+	if changed {
+		sort.Slice(out, func(i, j int) bool { return out[i].String() < out[j].String() })
+		var ded []*Term
+		for i, a := range out {
+			if i == 0 || a.String() != out[i-1].String() {
+				ded = append(ded, a)
+			}
+		}
+		out = ded
+		if len(out) == 1 {
+			return out[0]
+		}
+	}
 	return &Term{Op: "phi", A: out}
+}
+
+func collapseCycleRefs(t *Term, alts map[string]bool) *Term {
+	if t == nil || len(t.A) == 0 {
+		return t
+	}
+	if t.Op == "phi" {
+		hasLoop, rest := false, true
+		for _, a := range t.A {
+			if a.Op == "loop" {
+				hasLoop = true
+			} else if !alts[a.String()] {
+				rest = false
+			}
+		}
+		if hasLoop && rest {
+			return mk("loop", "@")
+		}
+	}
+	var nt *Term
+	for i, a := range t.A {
+		if na := collapseCycleRefs(a, alts); na != a {
+			if nt == nil {
+				nt = &Term{Op: t.Op, S: t.S, F: t.F, T: t.T, A: append([]*Term(nil), t.A...)}
+			}
+			nt.A[i] = na
+		}
+	}
+	if nt != nil {
+		return nt
+	}
+	return t
 }
 
 func (x *TX) fieldPath(base *Term, st *types.Struct, path []string) *Term {
@@ -1469,7 +1558,7 @@ func (x *TX) callTerm(c *ssa.Call) *Term {
 		for _, a := range common.Args {
 			args = append(args, x.Of(a, c))
 		}
-		return &Term{Op: "call", S: "dyn:" + x.Of(common.Value, c).String(), A: args}
+		return &Term{Op: "dyncall", A: append([]*Term{x.Of(common.Value, c)}, args...)}
 	}
 	name := funcName(callee)
 	var args []*Term
